@@ -47,3 +47,64 @@ Theorem C16_ignored_include_contributes_nothing :
     include_loop fi cfg tbl recur self_loc loading cs seen root.
 Proof. intros * H1 H2 H3 H4. cbn [include_loop]. rewrite H1. cbn [bind]. rewrite H2, H3, H4. reflexivity. Qed.
 Eval cbv in "ASSUMPTIONS-OF C16_ignored_include_contributes_nothing"%string. Print Assumptions C16_ignored_include_contributes_nothing.
+
+(** In the walk a missing class that is not ignored -- whether the entry names it directly or through a
+    reference -- stops the loop, wherever the loop stands, with the error naming the class the entry
+    resolves to ... *)
+Theorem C16_missing_include_stops_the_loop_naming_the_class :
+  forall fi cfg tbl recur self_loc loading c cs seen root name0,
+    include_name fi (n_params root) c = Ok name0 ->
+    let name := abs_class_name self_loc name0 in
+    mem name seen = false -> mem name loading = false ->
+    find_class (abs_class_name self_loc name) tbl = None ->
+    c_ignore cfg && mem (abs_class_name self_loc name) (c_matches cfg) = false ->
+    include_loop fi cfg tbl recur self_loc loading (c :: cs) seen root = Err (EClassNotFound (abs_class_name self_loc name)).
+Proof.
+  intros * Hn name Hs Hl Hf Hi. cbn [include_loop]. rewrite Hn. cbn [bind].
+  fold name. rewrite Hs, Hl. rewrite (read_class_missing_fails cfg tbl self_loc name Hf Hi). reflexivity.
+Qed.
+Eval cbv in "ASSUMPTIONS-OF C16_missing_include_stops_the_loop_naming_the_class"%string. Print Assumptions C16_missing_include_stops_the_loop_naming_the_class.
+
+(** ... and that error is the outcome of every enclosing level: of the entity whose list was walked
+    (whatever it holds itself) and of the loop that was walking the entity. *)
+Theorem C16_walk_errors_reach_the_top :
+  (forall f fi cfg tbl self seen loading root e,
+     include_loop fi cfg tbl (render_impl f fi cfg tbl) (n_loc self) loading (n_classes self) seen root = Err e ->
+     render_impl (S f) fi cfg tbl self seen loading root = Err e) /\
+  (forall fi cfg tbl recur self_loc loading c cs seen root name0 cn e,
+     include_name fi (n_params root) c = Ok name0 ->
+     let name := abs_class_name self_loc name0 in
+     mem name seen = false -> mem name loading = false ->
+     read_class cfg tbl self_loc name = Ok (Some cn) ->
+     recur cn seen (loading ++ [name]) root = Err e ->
+     include_loop fi cfg tbl recur self_loc loading (c :: cs) seen root = Err e).
+Proof.
+  split.
+  - intros * H. cbn [render_impl]. now rewrite H.
+  - intros * Hn name Hs Hl Hr He. cbn [include_loop]. rewrite Hn. cbn [bind]. fold name. rewrite Hs, Hl, Hr. cbn [bind].
+    now rewrite He.
+Qed.
+Eval cbv in "ASSUMPTIONS-OF C16_walk_errors_reach_the_top"%string. Print Assumptions C16_walk_errors_reach_the_top.
+
+(** The error is truthful: a class is reported as not found only if the name it resolves to is in no
+    file and is not ignored by the settings. *)
+Theorem C16_not_found_error_is_truthful :
+  forall cfg tbl loc name cls,
+    read_class cfg tbl loc name = Err (EClassNotFound cls) ->
+    cls = abs_class_name loc name /\ find_class cls tbl = None /\ c_ignore cfg && mem cls (c_matches cfg) = false.
+Proof.
+  intros cfg tbl loc name cls H. unfold read_class in H.
+  destruct (find_class (abs_class_name loc name) tbl) as [ce|] eqn:Ef.
+  - destruct (node_of_yaml (ce_loc ce) (ce_doc ce)); cbn in H; discriminate.
+  - destruct (c_ignore cfg && mem (abs_class_name loc name) (c_matches cfg)) eqn:Ei; [discriminate|].
+    injection H as <-. repeat split; assumption.
+Qed.
+Eval cbv in "ASSUMPTIONS-OF C16_not_found_error_is_truthful"%string. Print Assumptions C16_not_found_error_is_truthful.
+
+(** non-vacuity: the missing class is named through a reference *)
+Example C16_missing_through_reference_nonvacuous :
+  let tbl := [{| ce_name := "sel"; ce_loc := []; ce_doc := YMap [(YStr "parameters", YMap [(YStr "backend", YStr "storage.ceph")])] |}] in
+  let cfg := {| c_ignore := false; c_matches := []; c_compose := false; c_literal_dots := false |} in
+  exists n, node_of_yaml [] (YMap [(YStr "classes", YSeq [YStr "sel"; YStr "${backend}"])]) = Ok n /\
+    node_render 10 100 cfg tbl n {| m_name := "n"; m_uri := ""; m_parts := ["n"] |} = Err (EClassNotFound "storage.ceph").
+Proof. cbn zeta. eexists. split; [reflexivity | vm_compute; reflexivity]. Qed.
